@@ -60,6 +60,13 @@ func Appender(name string) *RecAppender {
 	return appenders[name]
 }
 
+// ResetAppenders forgets every recording appender seen so far.
+func ResetAppenders() {
+	regMu.Lock()
+	appenders = map[string]*RecAppender{}
+	regMu.Unlock()
+}
+
 // GateNext, when set, is installed as Gate/Entered of appenders at Start (by name).
 var GateNext = map[string]*RecAppender{}
 
@@ -92,6 +99,8 @@ func (a *RecAppender) wait(id int64) {
 }
 
 func (a *RecAppender) Append(e *log.Event) {
+	a.wait(EventID(e))
+	// the event is read after the gate opened: whatever happened to shared data meanwhile shows
 	r := Rec{ID: EventID(e), Level: e.Level.Name(), Tag: e.Tag, File: e.File, Line: e.Line, Time: e.Time,
 		CtxString: e.CtxString, NCtx: len(e.CtxFields), EvPtr: uintptr(unsafe.Pointer(e))}
 	for _, f := range e.CtxFields {
@@ -100,7 +109,6 @@ func (a *RecAppender) Append(e *log.Event) {
 	for _, f := range e.Fields {
 		r.Keys = append(r.Keys, f.Key)
 	}
-	a.wait(r.ID)
 	a.mu.Lock()
 	a.recs = append(a.recs, r)
 	a.mu.Unlock()
